@@ -84,6 +84,7 @@ class FCtx(object):
         if len(live) != len(self.events):
             self.events[:] = live
         self.ex.loop_guards = dict((k, tuple(g for g in v if not const_guard(g))) for k, v in self.ex.loop_guards.items())
+        self._apply_shims()
         self._fold_local_dict_builds()
         self._alias_stored_locals()
         self._canon_regex_calls(model)
@@ -173,6 +174,27 @@ class FCtx(object):
             ev.guards = tuple((T.subst(g[0], fn), g[1]) for g in ev.guards)
             ev.raw_guards = tuple((T.subst(g[0], fn), g[1]) for g in ev.raw_guards)
         self.ex.loop_guards = dict((k, tuple((T.subst(g[0], fn), g[1]) for g in v)) for k, v in self.ex.loop_guards.items())
+
+    def _apply_shims(self):
+        """``stand_in(self.<attr>, x)`` is ``self.<method>(x)`` for a known method that was turned into a module-level function"""
+        shims = getattr(self.cls, "shims", None) if self.cls is not None else None
+        if not shims or self.node.name in shims or not self.node.args.args:
+            return
+        S = ("param", self.node.args.args[0].arg)
+
+        def fn(x):
+            if x[0] == "call" and x[1][0] == "global" and len(x[2]) == 2 and not x[3]:
+                for m_, (fname, attr) in shims.items():
+                    if x[1][1] == fname and x[2][0] == ("attr", S, attr):
+                        return ("call", ("attr", S, m_), (x[2][1],), ())
+            return None
+        for ev in self.events:
+            for fld in ("value", "target", "raw", "raw_target"):
+                v = getattr(ev, fld)
+                if v is not None:
+                    setattr(ev, fld, T.subst(v, fn))
+            ev.guards = tuple((T.subst(g[0], fn), g[1]) for g in ev.guards)
+            ev.raw_guards = tuple((T.subst(g[0], fn), g[1]) for g in ev.raw_guards)
 
     def _fold_patched_mappings(self):
         """a local mapping obtained from a call (``result = match.groupdict()``) that is only read with literal keys and
@@ -588,6 +610,9 @@ class FCtx(object):
                 return lk[1], {lk[1].args.args[0].arg: func[1]}, tq, renamer(lk[0].module)
             target = None
             first = None
+            if func[0] == "global" and fref.cls is not None and fref.node.name not in getattr(fref.cls, "shims", {}) \
+                    and any(func[1] == sh[0] for sh in getattr(fref.cls, "shims", {}).values()):
+                return None          # the stand-in of a known method: kept as a call (rewritten to the method by the post-pass)
             want_gen = func[0] == "generator"
             if want_gen:
                 func = func[1]
